@@ -34,6 +34,7 @@ type Case struct {
 	SkipIndex bool           `json:"skipindex,omitempty"`
 	Async     bool           `json:"async,omitempty"`
 	Ops       []ROp          `json:"ops"`
+	Nest      int            `json:"nest,omitempty"` // MultiRowGroup: 0 flat, 1 Multi(Multi(head), tail...), 2 Multi(first, Multi(rest)), 3 Multi(Multi(a), Multi(b))
 }
 
 var kinds = []string{"rowgroup.Rows", "rowgroup.Rows", "Reader", "Pages", "Pages", "MultiRowGroup", "Buffer"}
@@ -49,6 +50,10 @@ func genCase(t *rapid.T) Case {
 	c.Opts.MaxRows = int64([]int{0, 0, 0, 64, 65, 100, 7}[rapid.IntRange(0, 6).Draw(t, "mr")])
 	c.Kind = kinds[rapid.IntRange(0, len(kinds)-1).Draw(t, "kind")]
 	c.Col = rapid.IntRange(0, len(cols)-1).Draw(t, "col")
+	c.Nest = rapid.IntRange(0, 3).Draw(t, "nest")
+	if c.Kind == "MultiRowGroup" && c.Opts.MaxRows == 0 {
+		c.Opts.MaxRows = int64([]int{7, 20, 64}[rapid.IntRange(0, 2).Draw(t, "mmr")])
+	}
 	c.SkipIndex = rapid.IntRange(0, 3).Draw(t, "skipindex") == 0
 	c.Async = rapid.IntRange(0, 3).Draw(t, "async") == 0
 	nops := rapid.IntRange(1, 30).Draw(t, "nops")
@@ -180,7 +185,19 @@ func runCase(c Case, o *kit.Obs) *kit.Failure {
 			o.Class("no-rowgroup")
 			return nil
 		}
-		m := parquet.MultiRowGroup(f.RowGroups()...)
+		gs := f.RowGroups()
+		m := parquet.MultiRowGroup(gs...)
+		if h := len(gs) / 2; c.Nest > 0 && len(gs) >= 3 {
+			switch c.Nest {
+			case 1:
+				m = parquet.MultiRowGroup(append([]parquet.RowGroup{parquet.MultiRowGroup(gs[:h]...)}, gs[h:]...)...)
+			case 2:
+				m = parquet.MultiRowGroup(gs[0], parquet.MultiRowGroup(gs[1:]...))
+			default:
+				m = parquet.MultiRowGroup(parquet.MultiRowGroup(gs[:h]...), parquet.MultiRowGroup(gs[h:]...))
+			}
+			o.Class("nested-multi-rowgroup")
+		}
 		r := m.Rows()
 		defer r.Close()
 		rr = r
